@@ -223,7 +223,7 @@ fn dir_loc_code(l: &ast::DirectiveLocation) -> String {
     }
 }
 /// what the rules read from the schema
-fn enc_rschema(s: &Schema) -> String {
+pub(crate) fn enc_rschema(s: &Schema) -> String {
     use apollo_compiler::schema::ExtendedType as E;
     let mut o: Vec<String> = vec![];
     for t in [ast::OperationType::Query, ast::OperationType::Mutation, ast::OperationType::Subscription] {
@@ -280,7 +280,7 @@ fn enc_rsels(sels: &[ast::Selection], o: &mut Vec<String>) {
     }
     o.push(".".into());
 }
-fn enc_rdoc(doc: &ast::Document) -> String {
+pub(crate) fn enc_rdoc(doc: &ast::Document) -> String {
     let mut o: Vec<String> = vec![];
     for d in &doc.definitions {
         match d {
